@@ -200,10 +200,138 @@ def js_values_leg(res, rng, count):
         node.close()
 
 
+def unbounded_stream_leg(ns, res, rng, count):
+    """The CSV front-end over an endless byte stream (what a pipe from a running producer is), and the command line with an endless standard input:
+    a bounded streaming query must stop pulling.  Budgets are logical (bytes served), not wall-clock."""
+    import io
+    import os
+    import subprocess
+    import tempfile
+    import threading
+
+    class BudgetExceeded(Exception):
+        pass
+
+    class Endless(io.RawIOBase):
+        def __init__(self, header, line_of, eol, budget):
+            self.pending = header
+            self.line_of, self.eol, self.budget = line_of, eol, budget
+            self.k = 0
+            self.served = 0
+
+        def readable(self):
+            return True
+
+        def readinto(self, b):
+            if self.served > self.budget:
+                raise BudgetExceeded('ReadBudgetExceeded: %d bytes served, budget %d' % (self.served, self.budget))
+            while len(self.pending) < len(b):
+                self.k += 1
+                self.pending += self.line_of(self.k) + self.eol
+            n = len(b)
+            b[:n] = self.pending[:n]
+            self.pending = self.pending[n:]
+            self.served += n
+            return n
+
+    queries = [('select top %d a1', lambda n: [[str(k)] for k in range(1, n + 1)]),
+               ('select a1, a2 limit %d', lambda n: [[str(k), 'v%d' % (k % 3)] for k in range(1, n + 1)]),
+               ('select a1 where int(a1) %% 7 == 3 limit %d', lambda n: [[str(k)] for k in range(1, 7 * n + 10) if k % 7 == 3][:n]),
+               ('select distinct a2 limit %d', lambda n: [['v1'], ['v2'], ['v0']][:n]),
+               ('select top %d NR, a1', lambda n: [[k, str(k)] for k in range(1, n + 1)])]
+    for it in range(count):
+        qt, expect = queries[it % len(queries)]
+        n = rng.choice([0, 1, 2, 3, 5]) if 'distinct' not in qt else rng.choice([1, 2])      # the stream has three distinct a2 values: the engine notices the bound at output n + 1
+        qtext = qt % n
+        policy = rng.choice(['simple', 'quoted', 'quoted_rfc'])
+        enc = rng.choice(['utf-8', 'latin-1'])
+        eol = rng.choice([b'\n', b'\r\n'])
+        has_header = rng.random() < 0.3
+        comment = rng.choice([None, None, '#'])
+        line_of = (lambda c: (lambda k: (b'#skip,me' + eol if c and k % 4 == 0 else b'') + ('%d,v%d' % (k, k % 3)).encode()))(comment)
+        budget = 256 * 1024
+        stream = Endless(b'id,val' + eol if has_header else b'', line_of, eol, budget)
+        PI, PW, PR = boundary.probes(ns)
+        w = PW(boundary.Log())
+        err = None
+        try:
+            ns.rbql.query(qtext, ns.csv.CSVRecordIterator(stream, enc, ',', policy, has_header, comment_prefix=comment), w, [])
+        except Exception as e:
+            err = '%s: %s' % (type(e).__name__, str(e)[:120])
+        res.evaluations += 1
+        res.count('unbounded_stream_runs')
+        res.nontrivial('ustream', qtext, policy, enc, has_header, comment)
+        case = {'leg': 'unbounded-stream', 'query_text': qtext, 'policy': policy, 'encoding': enc, 'has_header': has_header, 'comment': comment}
+        if err is not None:
+            res.violation('py:csv-stream-kept-pulling-input' if 'ReadBudgetExceeded' in err else 'py:csv-stream-unbounded-error', '[py/csv] %s over an endless %s %s stream: %s after %d bytes (budget %d)' % (qtext, enc, policy, err, stream.served, budget), case)
+            continue
+        res.count('stream_bytes_within_budget')
+        res.count('stream_bytes_served', stream.served)
+        got = [[v for v in r] for r in w.rows]
+        if got != expect(n):
+            res.violation('py:csv-stream-rows-differ-unbounded', '[py/csv] %s over an endless stream -> %r, expected %r' % (qtext, got[:8], expect(n)[:8]), case)
+    # the command line with an endless standard input
+    d = tempfile.mkdtemp(prefix='rv-c02-')
+    try:
+        for it in range(max(2, count // 6)):
+            qt, expect = queries[(it * 3 + 1) % len(queries)]
+            n = rng.choice([1, 2, 4]) if 'distinct' not in qt else rng.choice([1, 2])
+            qtext = qt % n
+            e = dict(os.environ, PYTHONPATH=env.PY_PKG_DIR, PYTHONDONTWRITEBYTECODE='1', HOME=d, PYTHONWARNINGS='ignore')
+            p = subprocess.Popen([sys.executable, '-W', 'ignore', '-m', 'rbql', '--delim', ',', '--policy', 'quoted', '--query', qtext], env=e, cwd=d, stdin=subprocess.PIPE, stdout=subprocess.PIPE, stderr=subprocess.PIPE)
+            fed = [0]
+            limit = 48 * 1024 * 1024
+
+            def feed():
+                k = 0
+                try:
+                    while fed[0] < limit:
+                        block = b''.join(('%d,v%d\n' % (j, j % 3)).encode() for j in range(k + 1, k + 2001))
+                        k += 2000
+                        p.stdin.write(block)
+                        fed[0] += len(block)
+                    p.stdin.flush()
+                except (BrokenPipeError, OSError, ValueError):
+                    pass
+                finally:
+                    try:
+                        p.stdin.close()      # also when the feed limit was reached: the child must see end of input, or both sides wait for ever
+                    except Exception:
+                        pass
+            t = threading.Thread(target=feed)
+            t.start()
+            out = p.stdout.read()
+            errb = p.stderr.read()
+            t.join()
+            if fed[0] >= limit:
+                p.kill()
+            rc = p.wait()
+            try:
+                p.stdin.close()
+            except Exception:
+                pass
+            res.evaluations += 1
+            res.count('cli_unbounded_stdin_runs')
+            res.count('cli_unbounded_stdin_bytes_fed', fed[0])
+            case = {'leg': 'cli-unbounded-stdin', 'query_text': qtext}
+            if fed[0] >= limit:
+                res.violation('py:cli-kept-pulling-input', '[cli] %s with an endless standard input: still reading after %d bytes were fed' % (qtext, fed[0]), case)
+                continue
+            rows = [l.split(',') for l in out.decode().splitlines()]
+            exp = [[str(v) for v in r] for r in expect(n)]
+            if rc != 0 or rows != exp:
+                res.violation('py:cli-unbounded-stdin-result', '[cli] %s with an endless standard input: exit %d, stdout %r, stderr %r; expected %r' % (qtext, rc, out[:120], errb[-200:], exp), case)
+    finally:
+        import shutil
+        shutil.rmtree(d, ignore_errors=True)
+    res.sample({'leg': 'unbounded-stream', 'runs': count, 'budget_bytes': 256 * 1024, 'cli_feed_limit_bytes': 48 * 1024 * 1024})
+
+
 def plan(tier, seed):
     k = NSHARDS[tier]
     specs = [{'kind': 'bases', 'k': k, 'i': i, 'n': BASES[tier] // k} for i in range(k)]
     specs += [{'kind': 'unbounded', 'i': i, 'n': UNBOUNDED[tier]} for i in range(4)]
+    specs += [{'kind': 'unbounded-stream', 'i': i, 'n': 60 if tier == 'quick' else 600} for i in range(2)]
     specs.append({'kind': 'js-values', 'n': 300 if tier == 'quick' else 5000})
     return specs
 
@@ -213,6 +341,9 @@ def run_shard(spec, res):
     rng = random.Random(spec['seed'] * 7919 + spec['shard'] * 31 + 5)
     if spec['kind'] == 'unbounded':
         unbounded_leg(ns, res, rng, spec['n'])
+        return
+    if spec['kind'] == 'unbounded-stream':
+        unbounded_stream_leg(ns, res, rng, spec['n'])
         return
     if spec['kind'] == 'js-values':
         js_values_leg(res, rng, spec['n'])
@@ -258,8 +389,8 @@ def run_shard(spec, res):
 def summarize(tier, seed, m):
     shapes = sorted(k[6:] for k in m['counters'] if k.startswith('shape:'))
     return {
-        'rule': 'base queries over tables with many duplicate keys: ORDER BY 1-2 keys (str / int / len / mixed) x ASC/DESC x {none, DISTINCT, DISTINCT COUNT} x {WHERE, JOIN, UNNEST}; for each base every bound n in 0..|out|+1 (TOP and LIMIT) is executed and compared with the prefix of the unbounded run and with the reference; ASC/DESC pairs compared as exact reverses; streaming bounded queries are run over an unbounded lazy input with a read budget equal to the position of the record producing output n+1. distinct_nontrivial = distinct bases with more than one output row + distinct unbounded runs.',
-        'required': ['js_value_cases', 'py_cases', 'bound_runs', 'asc_desc_pairs', 'unbounded_runs', 'reads_within_budget', 'js_cases', 'js_unbounded_runs', 'js_reads_within_budget'],
+        'rule': 'base queries over tables with many duplicate keys: ORDER BY 1-2 keys (str / int / len / mixed) x ASC/DESC x {none, DISTINCT, DISTINCT COUNT} x {WHERE, JOIN, UNNEST}; for each base every bound n in 0..|out|+1 (TOP and LIMIT) is executed and compared with the prefix of the unbounded run and with the reference; ASC/DESC pairs compared as exact reverses; streaming bounded queries are run over an unbounded lazy input with a read budget equal to the position of the record producing output n+1. the CSV front-end over an endless byte stream (three policies, utf-8 / latin-1, LF / CRLF, header, comment lines) with a 256 KiB byte budget, and the command line fed an endless standard input (violation only after 48 MiB were consumed: logical budgets, no wall-clock verdicts), for bounded streaming SELECTs (UPDATE ignores LIMIT and is not a bounded query); distinct_nontrivial = distinct bases with more than one output row + distinct unbounded runs.',
+        'required': ['unbounded_stream_runs', 'stream_bytes_within_budget', 'cli_unbounded_stdin_runs', 'js_value_cases', 'py_cases', 'bound_runs', 'asc_desc_pairs', 'unbounded_runs', 'reads_within_budget', 'js_cases', 'js_unbounded_runs', 'js_reads_within_budget'],
         'extra': {'shapes_seen': shapes},
         'assumptions': ['termination clause restated as bounded progress: reads <= position of the record producing output n+1; inputs on which output n+1 never exists are not used'],
     }
